@@ -58,7 +58,8 @@ type W struct {
 	OnExchange    func(ex *simeth.Exchange)                     // extra hook at every RPC exchange, before faults (after the scheduling point)
 	OnSQL         func(label string, b simpg.Batch) simpg.Fault // extra hook at every SQL gate, after the scheduling point (process death etc.)
 
-	CommitHash uint64 // running hash over the committed changes (cheap state key)
+	BodyEndRaceErrors int    // set by race harnesses at the end of the body (teardown reports do not count)
+	CommitHash        uint64 // running hash over the committed changes (cheap state key)
 
 	dead       bool
 	HarnessErr string
